@@ -13,7 +13,9 @@ EXPLANATION = (
     "shortcut = transpose) and the two insert_block calls use swapped (rows, columns); (R03.5) producer and consumers of the "
     "on-demand bounding box agree on the half-open cell convention; (R03.6) rows assembled per level and the partial-row route "
     "agree (same row sets reach _assemble_level and represent_fine); (R03.7) the loops that accumulate inter-level index sets "
-    "over the coarser levels within the disparity have no early exit (break/continue/return): every level contributes.")
+    "over the coarser levels within the disparity have no early exit (break/continue/return): every level contributes; shared: "
+    "(R03.8 = R11.2) provenance of the neighbour sets (supports of active functions, not active cells), (R03.9 = R04.4) cache "
+    "invalidation after every state write, (R03.10 = R05.6) structure of the truncation behind thb_to_hb.")
 DOES_NOT_DECIDE = "equality with I^T A I; which rows must be assembled for a given refinement history"
 TECHNIQUE = "custom AST rules: Optional-field guard dominance, matrix-chain canonical forms and mirror comparison, try/finally pairing, convention agreement"
 
